@@ -300,8 +300,16 @@ def _eval_case(case):
         return V, False, inc, pvo
 
     # ---- status (all functions)
+    knife_edge = False
+    if fn == "pagerank_edges" and backends[0] == "python" and _is_num(ref["objective"]) and case["tol"] > 0:
+        # python's objective is its last max-norm step: when it equals tol up to rounding, "step < tol" is decided by the
+        # summation order of the incoming contributions (edge order in rust, source order in python), not by the algorithm
+        knife_edge = abs(ref["objective"] - case["tol"]) <= 1e-9 * case["tol"]
     for b in backends[1:]:
         if R[b]["status"] != ref["status"]:
+            if knife_edge and {R[b]["status"], ref["status"]} == {"OPTIMAL", "MAX_ITER"}:
+                inc["pagerank status differs on a rounding knife edge (|last step - tol| <= 1e-9 tol)"] = 1
+                continue
             bad("status-identical", f"python={ref['status']} {b}={R[b]['status']}")
     status_ok = not V
     for b in backends[1:]:
@@ -933,6 +941,7 @@ def run(ctx: Ctx):
         "weights that are ints or multiples of 1/8 sum exactly in binary64, so 'identical' is ==; 3-decimal float weights are compared with 1e-9 relative slack",
         "PageRank tolerance: both converged => |py-rust| <= d/(1-d)*(n+1)*tol + 1e-9 (python stops on max-norm < tol, so its L1 step is < n*tol; "
         "rust stops on L1 < tol; error of an iterate <= d/(1-d) * last L1 step); both MAX_ITER => same iterate, 1e-9; damping == 1: status only",
+        "PageRank status on a knife edge: when python's last max-norm step is within 1e-9 relative of tol, OPTIMAL vs MAX_ITER is float summation order, not counted",
         "not compared (incidental): iterations, evaluations, dict key order, int-vs-float type of equal numbers, objective of topological_sort_edges/pagerank_edges",
     ]
     so, log, secs = build_extension()
